@@ -21,7 +21,7 @@ SPEC = dict(
         "transition; non-trivial = distinct transitions that are a torchjd call on a state where at least one requested .grad "
         "already exists (accumulation rather than creation)"
     ),
-    bound=dict(quick="9 programs x 2 initial states (all None / arbitrary content) x all histories of <= 4 events", thorough="<= 5 events"),
+    bound=dict(quick="10 programs x 2 initial states (all None / arbitrary content) x all histories of <= 4 events", thorough="<= 5 events"),
     assumptions=[
         "graphs without retain_grad() tensors; deterministic aggregators (Constant, Mean, UPGrad)",
         "the graph is retained (retain_graph=True) so that calls can be repeated; freed-graph behaviour is C13",
@@ -30,7 +30,7 @@ SPEC = dict(
     ],
 )
 
-PROGRAMS = ("shared-subexpr", "sum-heads", "equal-sized", "unrequested", "unreachable", "nograd-leaf", "mtl", "mtl-shared-taskparam", "mtl-unreachable")
+PROGRAMS = ("gen-inputs", "shared-subexpr", "sum-heads", "equal-sized", "unrequested", "unreachable", "nograd-leaf", "mtl", "mtl-shared-taskparam", "mtl-unreachable")
 DETERMINISM_SLICE = 4
 
 
@@ -63,7 +63,13 @@ def _build(prog, aggname):
         inner = Constant(torch.tensor([1.0, -2.0, 3.0, 5.0][:m], dtype=torch.float64)) if aggname == "const" else UPGrad()
         return RecordingAggregator(inner)
 
-    if prog == "shared-subexpr":
+    if prog == "gen-inputs":  # inputs given as a one-shot iterator, tensors as a tuple
+        h = a * b
+        outs = [h.sum() * c, (h * h).sum()]
+        req, inter = [a, b, c], [h] + outs
+        call = lambda k, agg: backward(tuple(outs), agg, inputs=(x for x in req), retain_graph=True, parallel_chunk_size=k)  # noqa: E731
+        m = 2
+    elif prog == "shared-subexpr":
         t = a + b  # autograd hands the SAME gradient tensor to a and to b
         outs = [t.sum() * c, (t * t).sum()]
         req, inter = [a, b, c], [t] + outs
